@@ -1,0 +1,15 @@
+//go:build verif
+
+package gov
+
+import "github.com/ethereum/go-ethereum/common"
+
+// VerifHandlerIDs (build tag `verif` only, property C14): the keys of the handler table NewHookAdapter built by
+// ranging over the ABI's event map.
+func (h *HookAdapter) VerifHandlerIDs() []common.Hash {
+	ids := make([]common.Hash, 0, len(h.handlers))
+	for id := range h.handlers {
+		ids = append(ids, id)
+	}
+	return ids
+}
